@@ -795,7 +795,10 @@ def _run(case, ctx, adjudication, key, envn, f64, mode, k, slice_):
                 compare(solo[i], Ls, gaps, recs[p], slice_, label, f64, issues,
                         f"instance {i} at position {p} of batch {idx}" + (f" (decoding options {run.dec})" if run.dec else ""),
                         ll_cast32=key in LL_CAST32,
-                        loose32=(not f64 and mode != "greedy" and family(key) in NO_F64), flt=flt)
+                        # (MatNet-FFSP: tanh-clipped logits are scaled by 10 and the spread-initialised stage encoders
+                        #  amplify float32 rounding - an exactly tied pair of jobs, identical run times in the current
+                        #  stage, came out 1.05e-4 apart at B=1 and exactly tied at B=2 on the unchanged tree: same band)
+                        loose32=(not f64 and ((mode != "greedy" and family(key) in NO_F64) or key in LL_CAST32)), flt=flt)
                 seen[i].add(tuple(idx))
                 if any(recs[p].actions[r].shape[0] > Ls[r] for r in range(len(Ls))):
                     padded_rows += 1
